@@ -113,14 +113,14 @@ func check(src string) *gotypes.Result { return gotypes.Check(src, libImporter{}
 
 func TestOracleSupplements(t *testing.T) {
 	for src, want := range map[string]bool{
-		"package main\nfunc main() {}\n":                          true,
-		"package main\nfunc f() {}\n":                             false, // no main
-		"package p\nfunc main() {}\n":                             false, // not package main
-		"package main\nfunc f()\nfunc main() {}\n":                false, // no body
-		"package main\nfunc main() { x := 1 }\n":                  false,
-		"package main\nimport \"lib\"\nfunc main() { _ = lib.K }": true,
+		"package main\nfunc main() {}\n":                           true,
+		"package main\nfunc f() {}\n":                              false, // no main
+		"package p\nfunc main() {}\n":                              false, // not package main
+		"package main\nfunc f()\nfunc main() {}\n":                 false, // no body
+		"package main\nfunc main() { x := 1 }\n":                   false,
+		"package main\nimport \"lib\"\nfunc main() { _ = lib.K }":  true,
 		"package main\nimport \"os\"\nfunc main() { _ = os.Args }": false,
-		"package main\nfunc main() { _ = min(1, 2) }\n":           false, // go1.20
+		"package main\nfunc main() { _ = min(1, 2) }\n":            false, // go1.20
 		"package main\nfunc main() { for i := range 3 { _ = i } }": false,
 	} {
 		if got := check(src).Accepted(); got != want {
@@ -131,13 +131,13 @@ func TestOracleSupplements(t *testing.T) {
 
 func TestOutsideSubset(t *testing.T) {
 	for src, want := range map[string]bool{
-		"package main\ntype T int\nfunc (T) M() {}\nfunc main() {}\n":                    true,
-		"package main\ntype I interface{ M() }\nfunc main() {}\n":                         true,
-		"package main\ntype I interface{}\nfunc main() {}\n":                              false,
-		"package main\nfunc main() { s := []int{1, 2}; _ = [2]int(s) }\n":                 true,
-		"package main\nfunc main() { s := []int{1, 2}; _ = (*[2]int)(s) }\n":              false,
-		"package main\nfunc main() { var x struct{ a int }; _ = x }\n":                    false,
-		"package main\nfunc main() { var e interface{ Error() string }; _ = e }\n":        true,
+		"package main\ntype T int\nfunc (T) M() {}\nfunc main() {}\n":              true,
+		"package main\ntype I interface{ M() }\nfunc main() {}\n":                  true,
+		"package main\ntype I interface{}\nfunc main() {}\n":                       false,
+		"package main\nfunc main() { s := []int{1, 2}; _ = [2]int(s) }\n":          true,
+		"package main\nfunc main() { s := []int{1, 2}; _ = (*[2]int)(s) }\n":       false,
+		"package main\nfunc main() { var x struct{ a int }; _ = x }\n":             false,
+		"package main\nfunc main() { var e interface{ Error() string }; _ = e }\n": true,
 	} {
 		r := check(src)
 		if !r.Accepted() {
